@@ -3,7 +3,7 @@
 //! segmentations, effective reads) and the model of the batch collectors that is used only to
 //! recognise the latent collector defect KF-C04-L1 (not listed; the collectors never engage in the current tree).
 
-use redis_sim::production::{verif_hooks, ConnectionConfig, ShardedActorState};
+use redis_sim::production::{verif_hooks, ConnectionConfig, ConnectionPool, ShardedActorState};
 use serde::{Deserialize, Serialize};
 use std::io;
 use std::pin::Pin;
@@ -20,6 +20,9 @@ pub struct Cfg {
     pub min_pipeline_buffer: u64,
     pub batch_threshold: u32,
     pub read_buffer_size: u32,
+    /// 0 = the server default (512 MB)
+    #[serde(default)]
+    pub max_buffer_size: u32,
 }
 
 impl Cfg {
@@ -28,10 +31,17 @@ impl Cfg {
             min_pipeline_buffer: u64::MAX,
             batch_threshold: 2,
             read_buffer_size: 8192,
+            max_buffer_size: 0,
         }
     }
     pub fn to_conn(&self) -> ConnectionConfig {
+        let d = ConnectionConfig::default();
         ConnectionConfig {
+            max_buffer_size: if self.max_buffer_size == 0 {
+                d.max_buffer_size
+            } else {
+                self.max_buffer_size as usize
+            },
             min_pipeline_buffer: if self.min_pipeline_buffer == u64::MAX {
                 usize::MAX
             } else {
@@ -39,7 +49,6 @@ impl Cfg {
             },
             batch_threshold: self.batch_threshold as usize,
             read_buffer_size: (self.read_buffer_size as usize).max(1),
-            ..ConnectionConfig::default()
         }
     }
 }
@@ -482,4 +491,152 @@ pub fn collector_model(frames: &[(usize, usize)], kinds: &[FrameKind], reads: &[
     }
     m.processed = next;
     m
+}
+
+// ---------------------------------------------------------------------------------------
+// sequences of connections on one buffer pool
+// ---------------------------------------------------------------------------------------
+
+/// Scripted socket with a write fault: after `fail_after` bytes have been accepted every
+/// write fails (io::Error) or accepts 0 bytes (`write_all` turns that into WriteZero).
+pub struct FaultyStream {
+    chunks: std::collections::VecDeque<Vec<u8>>,
+    out: Arc<std::sync::Mutex<Vec<u8>>>,
+    eof: Arc<AtomicBool>,
+    pending: bool,
+    pend_now: bool,
+    write_limit: usize,
+    /// (bytes accepted before the fault, true = Ok(0) instead of Err)
+    fault: Option<(usize, bool)>,
+    written: usize,
+}
+
+impl AsyncRead for FaultyStream {
+    fn poll_read(mut self: Pin<&mut Self>, cx: &mut Context<'_>, buf: &mut ReadBuf<'_>) -> Poll<io::Result<()>> {
+        if self.pending && self.pend_now {
+            self.pend_now = false;
+            cx.waker().wake_by_ref();
+            return Poll::Pending;
+        }
+        let Some(mut chunk) = self.chunks.pop_front() else {
+            if buf.remaining() > 0 {
+                self.eof.store(true, Ordering::SeqCst);
+            }
+            return Poll::Ready(Ok(()));
+        };
+        let n = chunk.len().min(buf.remaining());
+        if n == 0 {
+            self.chunks.push_front(chunk);
+            return Poll::Ready(Ok(()));
+        }
+        buf.put_slice(&chunk[..n]);
+        if n < chunk.len() {
+            let rest = chunk.split_off(n);
+            self.chunks.push_front(rest);
+        } else {
+            self.pend_now = true;
+        }
+        Poll::Ready(Ok(()))
+    }
+}
+
+impl AsyncWrite for FaultyStream {
+    fn poll_write(mut self: Pin<&mut Self>, _cx: &mut Context<'_>, buf: &[u8]) -> Poll<io::Result<usize>> {
+        let mut n = if self.write_limit == 0 { buf.len() } else { buf.len().min(self.write_limit) };
+        if let Some((after, zero)) = self.fault {
+            let room = after.saturating_sub(self.written);
+            if room == 0 {
+                return if zero {
+                    Poll::Ready(Ok(0))
+                } else {
+                    Poll::Ready(Err(io::Error::new(io::ErrorKind::BrokenPipe, "scripted write failure")))
+                };
+            }
+            n = n.min(room);
+        }
+        self.out.lock().unwrap().extend_from_slice(&buf[..n]);
+        self.written += n;
+        Poll::Ready(Ok(n))
+    }
+    fn poll_flush(self: Pin<&mut Self>, _cx: &mut Context<'_>) -> Poll<io::Result<()>> {
+        Poll::Ready(Ok(()))
+    }
+    fn poll_shutdown(self: Pin<&mut Self>, _cx: &mut Context<'_>) -> Poll<io::Result<()>> {
+        Poll::Ready(Ok(()))
+    }
+}
+
+pub struct SeqConn {
+    pub chunks: Vec<Vec<u8>>,
+    pub cfg: Cfg,
+    pub io: Io,
+    pub write_fault: Option<(usize, bool)>,
+    pub turn_budget: usize,
+}
+
+/// Run the connections one after another (each to completion) against one shared
+/// `ShardedActorState`. `shared_pool = Some(n)`: all of them draw their I/O buffers from one
+/// `ConnectionPool` with `n` pooled buffers, as under the server's accept loop;
+/// `None`: every connection gets a fresh pool (what a connection "run alone" sees).
+pub fn run_sequence(conns: Vec<SeqConn>, shards: usize, shared_pool: Option<usize>) -> Vec<RunOut> {
+    let rt = tokio::runtime::Builder::new_current_thread()
+        .enable_all()
+        .build()
+        .expect("tokio runtime");
+    let _ = vcore::runner::take_last_panic();
+    let outs = rt.block_on(async move {
+        let state = ShardedActorState::with_shards(shards.max(1));
+        let shared = shared_pool.map(|n| Arc::new(ConnectionPool::new(16, n.max(1))));
+        let mut outs = Vec::new();
+        for c in conns {
+            let out = Arc::new(std::sync::Mutex::new(Vec::new()));
+            let eof = Arc::new(AtomicBool::new(false));
+            let stream = FaultyStream {
+                chunks: c.chunks.into_iter().filter(|x| !x.is_empty()).collect(),
+                out: out.clone(),
+                eof: eof.clone(),
+                pending: c.io.pending,
+                pend_now: c.io.pending,
+                write_limit: c.io.write_limit as usize,
+                fault: c.write_fault,
+                written: 0,
+            };
+            let pool = shared.clone().unwrap_or_else(|| Arc::new(ConnectionPool::new(16, 4)));
+            let cc = c.cfg.to_conn();
+            let st = state.clone();
+            let h = tokio::spawn(async move {
+                verif_hooks::run_connection_with_pool(stream, st, cc, &pool).await;
+            });
+            let mut turns = 0usize;
+            while !h.is_finished() && turns < c.turn_budget {
+                tokio::task::yield_now().await;
+                turns += 1;
+            }
+            let (finished, panic) = if h.is_finished() {
+                match h.await {
+                    Ok(()) => (true, None),
+                    Err(_) => (
+                        true,
+                        Some(vcore::runner::take_last_panic().unwrap_or_else(|| "handler task failed".to_string())),
+                    ),
+                }
+            } else {
+                h.abort();
+                (false, None)
+            };
+            let other_panic = if panic.is_none() { vcore::runner::take_last_panic() } else { None };
+            let bytes = out.lock().unwrap().clone();
+            outs.push(RunOut {
+                out: bytes,
+                finished,
+                eof_seen: eof.load(Ordering::SeqCst),
+                panic,
+                other_panic,
+                turns,
+            });
+        }
+        outs
+    });
+    drop(rt);
+    outs
 }
